@@ -20,9 +20,9 @@ theorem to_u16_ok (v : Int) (h : -32768 ≤ v ∧ v < 65536) :
   have h1 : (decide (v ≥ 65536) || decide (v < -32768)) = false := by simp; omega
   simp only [h1, Bool.false_eq_true, if_false]
   by_cases hn : v < 0
-  · refine ⟨65536 + v, by simp [hn]; rfl, by omega, by omega, ?_⟩
+  · refine ⟨65536 + v, by simp [hn]; (first | rfl | exact congrArg Except.ok (by omega)), by omega, by omega, ?_⟩
     intro _; unfold from_u16; simp; omega
-  · refine ⟨v, by simp [hn]; rfl, by omega, by omega, ?_⟩
+  · refine ⟨v, by simp [hn]; (first | rfl | exact congrArg Except.ok (by omega)), by omega, by omega, ?_⟩
     intro hv; unfold from_u16
     have : ¬ v ≥ 32768 := by omega
     simp [this]
